@@ -711,9 +711,9 @@ def build_cases(ctx):
     for name, src in chosen:
         for p in line_prefixes(src):
             add("lineprefix", p)
-        for p in char_prefixes(rng, src, 8 if quick else 15):
+        for p in char_prefixes(rng, src, 8 if quick else 10):
             add("charprefix", p)
-    nt, nc, nr, ng = (1300, 650, 300, 180) if quick else (16000, 7000, 3000, 2500)
+    nt, nc, nr, ng = (1300, 650, 300, 180) if quick else (12000, 5000, 2500, 2000)
     nt, nc, nr, ng = [max(1, int(x * SCALE)) for x in (nt, nc, nr, ng)]
     for _ in range(nt):
         add("tokmut", token_mutant(rng, rng.choice(files)[1]))
